@@ -103,6 +103,8 @@ type SentMsg struct {
 type Net struct {
 	Sent        []gsmsg.GraphSyncMessage
 	SentTo      []SentMsg
+	// OnSent, when set, receives every message that left successfully
+	OnSent func(to peer.ID, m gsmsg.GraphSyncMessage)
 	// SendGate: SendMsg to that peer blocks until the gate is opened
 	SendGate map[peer.ID]*Gate
 	SendCalls   int
@@ -155,6 +157,9 @@ func (s *Sender) SendMsg(ctx context.Context, m gsmsg.GraphSyncMessage) error {
 	}
 	s.n.Sent = append(s.n.Sent, m)
 	s.n.SentTo = append(s.n.SentTo, SentMsg{s.p, m})
+	if s.n.OnSent != nil {
+		s.n.OnSent(s.p, m)
+	}
 	return nil
 }
 func (s *Sender) Close() error { s.n.OpenSenders--; return nil }
